@@ -117,42 +117,15 @@ def check(ctx, rep):
     # ---- R05.a
     check_register_before_look(rep, 'R05.a', core)
     # ---- R05.b
-    wake_impls = {}
-    for c in (core, time):
-        for f in c.built:
-            if path_matches(f.assoc.get('trait'), 'alloc::task::Wake') and f.kind == 'AssocFn':
-                wake_impls.setdefault(norm(f.assoc['self_adt']), {})[f.name] = f
-    if len(wake_impls) < 2:
-        rep.bad('R05.b', 'wake-impls', 'expected Wake impls for CommandWaker and TaskWaker, found %s' % sorted(wake_impls))
-    for adt, fns in sorted(wake_impls.items()):
-        w = fns.get('wake')
-        r = fns.get('wake_by_ref')
-        if r is None:
-            rep.bad('R05.b', '%s|wake_by_ref' % adt, 'Wake impl for %s has no wake_by_ref' % adt)
-            continue
-        if w is not None:
-            deleg = [bb for bb, t in w.calls('alloc::task::Wake::wake_by_ref')]
-            rets = w.return_blocks()
-            rep.expect('R05.b', len(deleg) == 1 and all(x not in w.reachable([0], removed_blocks=deleg) for x in rets), '%s|wake-delegates' % adt,
-                       'wake calls wake_by_ref on every path', 'Wake::wake of %s does not always call wake_by_ref' % adt)
-        sends = [bb for bb, t in r.calls('crossbeam_channel::channel::Sender::send')]
-        rets = r.return_blocks()
-        rep.expect('R05.b', len(sends) >= 1 and all(x not in r.reachable([0], removed_blocks=sends) for x in rets), '%s|enqueues' % adt,
-                   'the task id is sent on the ready queue on every path', '%s::wake_by_ref can return without enqueueing the task' % adt)
-        parents = [bb for bb, t in r.calls('futures_core::task::__internal::atomic_waker::AtomicWaker::wake')]
-        has_parent = any(fld['name'] == 'parent_waker' for fld in (c01_adt(core, adt) or {'variants': [{'fields': []}]})['variants'][0]['fields'])
-        if has_parent:
-            stores = [bb for bb, t in r.calls('core::sync::atomic::AtomicBool::store', 'core::sync::atomic::Atomic::store') if 'woken' in c01.field_of_receiver(r, t['args'][0])]
-            ok = len(parents) == 1 and all(x not in r.reachable([0], removed_blocks=parents) for x in rets)
-            rep.expect('R05.b', ok, '%s|wakes-parent' % adt, 'the parent AtomicWaker is woken on every path',
-                       '%s::wake_by_ref can return without waking the parent (a nested wake-up would not reach the outer host)' % adt)
-            order = parents and sends and stores and all(r.dominates(s, p) and s != p for s in sends + stores for p in parents)
-            rep.expect('R05.b', bool(order), '%s|publish-before-wake' % adt, 'enqueue and woken.store dominate the parent wake',
-                       '%s::wake_by_ref wakes the parent before the task is enqueued / marked woken' % adt)
+    check_wake_impls(rep, 'R05.b', core, time)
     # ---- R05.c
     check_pending_wakers(rep, 'R05.c', core, time)
     # ---- R05.d / R05.e legacy futures
     check_legacy_futures(rep, 'R05.d', 'R05.e', core)
+    # R05.g: work a resumed task makes runnable on the core executor is done by the same call under every host: both executor loops run to
+    # quiescence (shared with C01 R01.e)
+    rep.rule('R05.g', 'both executor loops read both queues and return only after finding them empty again once any task has run', floor=5)
+    c01.check_executor_loops(rep, core, rid='R05.g')
     # R05.f: every host hands on every output it pulls from a hosted command: no CommandOutput / effect / event value is dropped on a normal
     # path of a hosting function (the linear rule of C01 restricted to the hosts), whatever the state of the hosted command
     rep.rule('R05.f', 'no host drops an output it has pulled from a hosted command', floor=1)
@@ -211,6 +184,67 @@ def check_legacy_futures(rep, rid_d, rid_e, core):
         rep.expect(rid_e, after and woken, '%s|delivers-then-wakes' % mod,
                    'every path after the delivery takes the stored waker and wakes it when present',
                    'legacy %s resolve closure can deliver a value without waking the stored waker' % mod)
+
+
+def check_wake_impls(rep, rid, core, time):
+    """Every way of waking a task waker — by reference or by value — does the whole job on every path: the task id is put on the ready
+    queue, the per-poll `woken` flag is set (where the waker has one: it is what keeps a just-woken task from being evicted) and the
+    parent's AtomicWaker is woken (where it has one), with the publication before the parent wake.  A method may do this itself or by
+    calling the other one (or a helper): call sites are summarised."""
+    from rules.common import Summaries
+    wake_impls = {}
+    for c in (core, time):
+        if c is None:
+            continue
+        for f in c.built:
+            if path_matches(f.assoc.get('trait'), 'alloc::task::Wake') and f.kind == 'AssocFn':
+                wake_impls.setdefault(norm(f.assoc['self_adt']), {})[f.name] = f
+    if len(wake_impls) < 2:
+        rep.bad(rid, 'wake-impls', 'expected Wake impls for CommandWaker and TaskWaker, found %s' % sorted(wake_impls))
+    sm = Summaries([c for c in (core, time) if c is not None])
+    SEND = ['crossbeam_channel::channel::Sender::send']
+    PARENT = ['futures_core::task::__internal::atomic_waker::AtomicWaker::wake']
+    STORE = ['core::sync::atomic::AtomicBool::store', 'core::sync::atomic::Atomic::store']
+    for adt, fns in sorted(wake_impls.items()):
+        fields = [fld['name'] for fld in (c01_adt(core, adt) or {'variants': [{'fields': []}]})['variants'][0]['fields']]
+        has_parent = 'parent_waker' in fields
+        has_woken = 'woken' in fields
+        if 'wake_by_ref' not in fns:
+            rep.bad(rid, '%s|wake_by_ref' % adt, 'Wake impl for %s has no wake_by_ref' % adt)
+            continue
+        for mname, m in sorted(fns.items()):
+            rets = m.return_blocks()
+
+            def on_every_path(sites):
+                return bool(sites) and all(x not in m.reachable([0], removed_blocks=sites) for x in rets)
+            sends = sm.sites(m, SEND, 'must')
+            key = '%s|%s' % (adt, mname)
+            rep.expect(rid, on_every_path(sends), key + '|enqueues' if mname != 'wake' else '%s|wake-delegates' % adt,
+                       'the task id is sent on the ready queue on every path',
+                       '%s::%s can return without enqueueing the task' % (adt, mname))
+            if has_woken:
+                stores = sm.sites(m, STORE, 'must')
+                rep.expect(rid, on_every_path(stores), key + '|marks-woken', 'the woken flag is stored on every path',
+                           '%s::%s can return without setting the `woken` flag: a task woken this way during its own poll looks unwoken to the '
+                           'eviction test and is discarded' % (adt, mname))
+            if has_parent:
+                parents = sm.sites(m, PARENT, 'must')
+                rep.expect(rid, on_every_path(parents), key + '|wakes-parent' if mname != 'wake_by_ref' else '%s|wakes-parent' % adt,
+                           'the parent AtomicWaker is woken on every path',
+                           '%s::%s can return without waking the parent (a nested wake-up would not reach the outer host)' % (adt, mname))
+        # order: in whichever function wakes the parent directly, the enqueue and the woken store come first
+        if has_parent:
+            direct = [g for g in core.built if not g.j.get('exp') and list(g.calls(*PARENT)) and
+                      (path_matches(g.assoc.get('self_adt'), adt) or adt.rsplit('::', 1)[-1] in g.npath)]
+            order = bool(direct)
+            for g in direct:
+                ps = [bb for bb, t in g.calls(*PARENT)]
+                pub = sm.sites(g, SEND, 'must') + (sm.sites(g, STORE, 'must') if has_woken else [])
+                need = 2 if has_woken else 1
+                order = order and len(set(pub)) >= need and all(any(g.dominates(s_, p_) and s_ != p_ for s_ in sm.sites(g, SEND, 'must')) for p_ in ps) and \
+                    (not has_woken or all(any(g.dominates(s_, p_) and s_ != p_ for s_ in sm.sites(g, STORE, 'must')) for p_ in ps))
+            rep.expect(rid, order, '%s|publish-before-wake' % adt, 'enqueue and woken.store dominate the parent wake',
+                       '%s wakes the parent before the task is enqueued / marked woken' % adt)
 
 
 def check_register_before_look(rep, rid, core):
